@@ -6,12 +6,22 @@ package main
 //   stress-incdec decs=<n> ms=<duration>      answer: ok | panic <where>
 //   stress-arrive max=<m> workers=<n> rounds=<r>   (simultaneous arrivals at max-1)
 //   stress-churn  max=<m> workers=<n> txns=<t>     (admit / in flight / release churn)
+//   stress-firstuse max=<m> workers=<n> rounds=<r> slow=<0|1>   (simultaneous arrivals at a FRESH quota, every round)
+//   stress-errorreport max=<m>                     (PUT /on_haproxy_error through the real admin route, idle and while a
+//                                                   PUT /configuration is being handled)
 //   stress-queue max=<m> waiters=<n> ttl=<sec>     (a Queue processor in front of the quota: waiters time out while the slots
 //                                                   are held, the holders' responses arrive right after)
 //   stress-realclock max=<m> exp=<sec> gc=<sec>    (a full engine on the PRODUCTION clock: abandoned transactions keep their
 //                                                   slots until their expiry and lose them by the next collector pass)
 
 import (
+	"io"
+	"net/http"
+	"net/http/httptest"
+	"reflect"
+	"unsafe"
+
+	"lunar/engine/routing"
 	"lunar/toolkit-core/verifhook"
 
 	"context"
@@ -346,6 +356,232 @@ func stressRealClock(max, expSec, gcSec int64) string {
 	return "ok"
 }
 
+// slowStore wraps the storage under a strategy's shared state (memoryState.contextMemory) by one that gives the processor
+// away around every call: a storage layer that takes its time. Semantics unchanged.
+type slowCtx struct{ in public_types.ContextI }
+
+func pause() {
+	runtime.Gosched()
+	for t := time.Now(); time.Since(t) < 20*time.Microsecond; {
+	}
+	runtime.Gosched()
+}
+func (c *slowCtx) Set(k string, v interface{}) error { pause(); return c.in.Set(k, v) }
+func (c *slowCtx) Get(k string) (interface{}, error) { return c.in.Get(k) }
+func (c *slowCtx) Pop(k string) (interface{}, error) { return c.in.Pop(k) }
+func (c *slowCtx) Exists(k string) bool              { r := c.in.Exists(k); pause(); return r }
+
+func slowStore(cs any) bool {
+	v := reflect.ValueOf(cs)
+	if v.Kind() != reflect.Ptr || v.Elem().Kind() != reflect.Struct {
+		return false
+	}
+	f := v.Elem().FieldByName("sharedContext")
+	if !f.IsValid() {
+		return false
+	}
+	sc := reflect.NewAt(f.Type(), unsafe.Pointer(f.UnsafeAddr())).Elem().Elem() // *memoryState[int64]
+	if sc.Kind() != reflect.Ptr || sc.Elem().Kind() != reflect.Struct {
+		return false
+	}
+	m := sc.Elem().FieldByName("contextMemory")
+	if !m.IsValid() {
+		return false
+	}
+	mv := reflect.NewAt(m.Type(), unsafe.Pointer(m.UnsafeAddr())).Elem()
+	in, ok := mv.Interface().(public_types.ContextI)
+	if !ok {
+		return false
+	}
+	mv.Set(reflect.ValueOf(&slowCtx{in}))
+	return true
+}
+
+// stress-firstuse: every round builds a FRESH quota (its set does not exist yet) already holding nothing, and `workers`
+// transactions arrive at it at the same instant; at most `max` may be admitted and be members. slow=1 puts a storage layer
+// that takes its time under the shared state.  answer: ok | exceeded first-use round=<r> admitted=<n> held=<h> | leak ...
+func stressFirstUse(max, workers, rounds int, slow bool) (res string) {
+	defer func() {
+		if r := recover(); r != nil {
+			res = "panic first-use"
+		}
+	}()
+	if runtime.GOMAXPROCS(0) < 4 {
+		defer runtime.GOMAXPROCS(runtime.GOMAXPROCS(4))
+	}
+	const chunk = 250
+	for base := 0; base < rounds; base += chunk {
+		ctx, cancel := context.WithCancel(context.Background())
+		context_manager.Get().WithContext(ctx).SetRealClock()
+		out := func() string {
+			for round := base; round < base+chunk && round < rounds; round++ {
+				cfg := &quotaresource.QuotaConfig{ID: fmt.Sprintf("fu%d", round), Strategy: &quotaresource.StrategyConfig{
+					Concurrent: &quotaresource.ConcurrentConfig{MaxRequestCount: int64(max), RequestExpirationSec: 600, GCIntervalSec: 600}}}
+				cs, err := quotaresource.NewConcurrentStrategy(cfg, nil)
+				if err != nil {
+					return "err:init"
+				}
+				if slow && !slowStore(cs) {
+					return "err:store"
+				}
+				var admitted, arrived atomic.Int64
+				var ready, done sync.WaitGroup
+				start := make(chan struct{})
+				apis := make([]public_types.APIStreamI, workers)
+				ready.Add(workers)
+				done.Add(workers)
+				for w := 0; w < workers; w++ {
+					apis[w] = apiFor(fmt.Sprintf("t%d", round*workers+w))
+					go func(a public_types.APIStreamI) {
+						defer done.Done()
+						ready.Done()
+						<-start
+						arrived.Add(1)
+						for spins := 0; arrived.Load() < int64(workers) && spins < 1_000_000; spins++ {
+						}
+						if limit(cs, a) {
+							admitted.Add(1)
+						}
+					}(apis[w])
+				}
+				ready.Wait()
+				close(start)
+				done.Wait()
+				if h := held(cs); admitted.Load() > int64(max) || h > int64(max) || h != admitted.Load() {
+					return fmt.Sprintf("exceeded first-use round=%d admitted=%d held=%d max=%d", round, admitted.Load(), h, max)
+				}
+				for _, a := range apis {
+					_ = cs.Dec(a)
+				}
+				if h := held(cs); h != 0 {
+					return fmt.Sprintf("leak first-use round=%d held=%d", round, h)
+				}
+			}
+			return "ok"
+		}()
+		cancel()
+		for dl := time.Now().Add(5 * time.Second); time.Now().Before(dl); {
+			if _, t := gcParked(); t == 0 {
+				break
+			}
+			time.Sleep(100 * time.Microsecond)
+		}
+		if out != "ok" {
+			return out
+		}
+	}
+	return "ok"
+}
+
+// stress-errorreport: the proxy's failure report goes through the REAL admin route (PUT /on_haproxy_error on the mux that
+// SetHandleRoutes fills, served over HTTP) for transactions that hold slots: once with nothing else going on, once while an
+// operator's PUT /configuration is being handled (its body still uploading; it ends with a payload the handler rejects,
+// so the engine is not replaced). Either way the report must be accepted and the slot be back at once.
+// answer: ok | report-not-accepted ... | slot-not-released ... | starved ...
+func stressErrorReport(max int64) string {
+	c := caseCfg{gcSec: 600, gcSet: true, order: []int{0},
+		quotas: []qspec{{conc: true, max: max, expSec: 600, expSet: true, parent: -1}}}
+	e, err := newEngineOn(c, true)
+	if err != nil {
+		return "err:init"
+	}
+	defer e.close()
+	// the admin handlers of the engine process, serving this stream (no telemetry, no HAProxy)
+	rd := &routing.HandlingDataManager{}
+	rv := reflect.ValueOf(rd).Elem()
+	set := func(name string, x any) bool {
+		f := rv.FieldByName(name)
+		if !f.IsValid() {
+			return false
+		}
+		reflect.NewAt(f.Type(), unsafe.Pointer(f.UnsafeAddr())).Elem().Set(reflect.ValueOf(x))
+		return true
+	}
+	if !set("isStreamsEnabled", true) || !set("stream", e.stream) {
+		return "err:admin"
+	}
+	mux := http.NewServeMux()
+	rd.SetHandleRoutes(mux)
+	srv := httptest.NewServer(mux)
+	defer srv.Close()
+	put := func(path string, body io.Reader) int {
+		req, err := http.NewRequest(http.MethodPut, srv.URL+path, body)
+		if err != nil {
+			return -1
+		}
+		resp, err := http.DefaultClient.Do(req)
+		if err != nil {
+			return -1
+		}
+		_, _ = io.Copy(io.Discard, resp.Body)
+		resp.Body.Close()
+		return resp.StatusCode
+	}
+	report := func(id string) int {
+		return put("/on_haproxy_error", strings.NewReader(fmt.Sprintf(`{"failed_transactions":{"%s":{}}}`, id)))
+	}
+	for k := int64(1); k <= max; k++ {
+		if v := e.request(fmt.Sprintf("t%d", k), false, "x", false); v != "a" {
+			return fmt.Sprintf("not-admitted tx=%d v=%s", k, v)
+		}
+	}
+	if v := e.request("t900", false, "x", false); v != "r" {
+		return "exceeded at-start v=" + v
+	}
+	// nothing else going on
+	if st := report("t1"); st != http.StatusOK {
+		return fmt.Sprintf("report-not-accepted idle status=%d", st)
+	}
+	if n := int64(e.total()); n != max-1 {
+		return fmt.Sprintf("slot-not-released idle held=%d/%d", n, max)
+	}
+	if v := e.request("t1", false, "x", false); v != "a" {
+		return "starved after-idle-report v=" + v
+	}
+	// an operator's PUT /configuration is being handled: its body is still uploading
+	pr, pw := io.Pipe()
+	cfgDone := make(chan int, 1)
+	go func() { cfgDone <- put("/configuration", pr) }()
+	if _, err := pw.Write([]byte(`{"padding": "` + strings.Repeat("x", 8192))); err != nil {
+		return "err:upload"
+	}
+	// it is inside the handler once another configuration request is turned away (226)
+	inside := false
+	for dl := time.Now().Add(5 * time.Second); time.Now().Before(dl); {
+		if put("/configuration", strings.NewReader("")) == http.StatusIMUsed {
+			inside = true
+			break
+		}
+		time.Sleep(time.Millisecond)
+	}
+	st := report("t1")
+	held := int64(e.total())
+	_, _ = pw.Write([]byte(`" this is not json`))
+	pw.Close()
+	var cfgStatus int
+	select {
+	case cfgStatus = <-cfgDone:
+	case <-time.After(10 * time.Second):
+		return "err:configuration-request-stuck"
+	}
+	if !inside {
+		return "ok" // the window was not reached (never on a sane machine); nothing to say
+	}
+	if cfgStatus != http.StatusBadRequest {
+		return fmt.Sprintf("err:configuration status=%d", cfgStatus)
+	}
+	if st != http.StatusOK {
+		return fmt.Sprintf("report-not-accepted during-configuration-update status=%d held=%d/%d", st, e.total(), max)
+	}
+	if held != max-1 || int64(e.total()) != max-1 {
+		return fmt.Sprintf("slot-not-released during-configuration-update held=%d/%d", e.total(), max)
+	}
+	if v := e.request("t901", false, "x", false); v != "a" {
+		return "starved after-report v=" + v
+	}
+	return "ok"
+}
+
 // removeGate holds the asynchronous clean-up of queue entries (`go p.removeRequest`, hook point queue.before-remove) while
 // it is closed: the window in which the processing loop can still meet the entry of a request that already has its verdict.
 type removeGate struct {
@@ -522,6 +758,19 @@ func execStress(c proto.Case, o *proto.Out) []string {
 			if ok1 && ok2 && ok3 && in(mx, 1, 16) && in(ex, 1, 10) && in(gc, 1, 10) {
 				outs[i] = stressRealClock(mx, ex, gc)
 			}
+		case "stress-firstuse":
+			mx, ok1 := kvI(w, "max")
+			wk, ok2 := kvI(w, "workers")
+			rd, ok3 := kvI(w, "rounds")
+			sl, ok4 := kvI(w, "slow")
+			if ok1 && ok2 && ok3 && ok4 && in(mx, 1, 16) && in(wk, 2, 64) && in(rd, 1, 100000) && in(sl, 0, 1) {
+				outs[i] = stressFirstUse(int(mx), int(wk), int(rd), sl == 1)
+			}
+		case "stress-errorreport":
+			mx, ok1 := kvI(w, "max")
+			if ok1 && in(mx, 1, 16) {
+				outs[i] = stressErrorReport(mx)
+			}
 		case "stress-queue":
 			mx, ok1 := kvI(w, "max")
 			wt, ok2 := kvI(w, "waiters")
@@ -550,6 +799,17 @@ func genStress(emit func(proto.Case), thorough bool) {
 	for _, p := range [][3]int{{2, 2, 1}, {1, 1, 2}} {
 		emit(proto.Case{ID: fmt.Sprintf("stress:realclock-exp%d-gc%d", p[1], p[2]),
 			Ops: []string{fmt.Sprintf("stress-realclock max=%d exp=%d gc=%d", p[0], p[1], p[2])}})
+	}
+	fu := 2000
+	if thorough {
+		fu = 20000
+	}
+	emit(proto.Case{ID: "stress:firstuse-max1", Ops: []string{fmt.Sprintf("stress-firstuse max=1 workers=%d rounds=%d slow=0", arriveWorkers(), fu)}})
+	for _, mx := range []int{1, 2} {
+		emit(proto.Case{ID: fmt.Sprintf("stress:firstuse-slowstore-max%d", mx), Ops: []string{fmt.Sprintf("stress-firstuse max=%d workers=4 rounds=%d slow=1", mx, fu/10)}})
+	}
+	for _, mx := range []int{1, 3} {
+		emit(proto.Case{ID: fmt.Sprintf("stress:errorreport-max%d", mx), Ops: []string{fmt.Sprintf("stress-errorreport max=%d", mx)}})
 	}
 	for _, p := range [][2]int{{1, 1}, {2, 3}} {
 		emit(proto.Case{ID: fmt.Sprintf("stress:queue-max%d-waiters%d", p[0], p[1]),
